@@ -533,6 +533,10 @@ fn main() {
             let path = args.positional.first().unwrap_or_else(|| harness_error("replay: missing file"));
             let text = std::fs::read_to_string(path).unwrap_or_else(|e| harness_error(&format!("{}: {}", path, e)));
             let j = Json::parse(&text).unwrap_or_else(|e| harness_error(&format!("{}: {}", path, e)));
+            if j.get("process_prefix").is_some() {
+                let exe = std::env::current_exe().unwrap_or_else(|e| harness_error(&e.to_string()));
+                std::process::exit(verifsim::driver::prefix_replay(&exe, &j));
+            }
             match j.get("engine").and_then(|e| e.as_str()) {
                 Some("hooks") => c15_replay(&j),
                 Some("history-mt") => c04mt::replay(&j),
